@@ -241,6 +241,8 @@ func (fx *fexec) externModel(key string, x *ssa.Call, f *ssa.Function, args []Va
 		return Val{Ty: rt}, true
 	case "slices.Delete":
 		return fx.slicesDelete(x, args, st, pos), true
+	case "sort.Strings":
+		return fx.sortStrings(x, args, st), true
 	case "maps.Clone":
 		// a new map object holding the same keys and values (shallow); nil stays nil
 		vc.note("extern maps.Clone: a new map with the same keys and (shallowly copied) values, nil for nil (assumed from its documentation)")
@@ -338,6 +340,9 @@ func externAssigns(vc *VC, key string, cc *ssa.CallCommon) (map[string]string, b
 				return map[string]string{comp: srt}, true
 			}
 		}
+	case "sort.Strings":
+		comp, srt := vc.elemComp(types.Typ[types.String])
+		return map[string]string{comp: srt}, true
 	case "maps.Clone":
 		if m, ok := vc.under(cc.Args[0].Type()).(*types.Map); ok {
 			pcomp, vcomp, vsort, lcomp, lsort := vc.mapComps(m)
